@@ -401,6 +401,7 @@ class AppStack(Stack):
             from nostr_relay.storage import kv
             env.stub_analyze(kv)
         storage_pkg._STORAGE = None
+        await self.prepare(path)
         self.web = web
         self._real_start_client = web.start_client
         stack = self
@@ -437,6 +438,9 @@ class AppStack(Stack):
             async with self.st.db.begin() as conn:
                 await conn.run_sync(get_metadata().create_all)
         instrument(self.st, self.backend)
+
+    async def prepare(self, path):
+        """hook: after the configuration was written and loaded, before the application is built"""
 
     async def open_conn(self, c, addr, origin):
         import falcon
@@ -937,6 +941,90 @@ def suite_app_gc(tier, seed, backends=("sql", "kv"), n=None):
     return s
 
 
+def suite_app_lists(tier, seed):
+    s = Suite("app:dynamic-lists-in-every-worker")
+    s.rule = ("the database holds the administrator's follow list (kind 3, p-tags = allowed authors) and, sometimes, a report (kind 1984, p-tag = denied "
+              "author); the configuration lists dynamic_lists.is_pubkey_allowed among the validators and the allow / deny list queries; the "
+              "application is built and started as the FIRST worker and as a LATER worker (web.is_main_process already set, this process's lists "
+              "empty); in both, once the start-up has run, an allowed author's event is acknowledged true and an outsider's / a denied author's "
+              "event is refused and not served; non-trivial always")
+    rng = rng_for(seed, "app-lists")
+
+    class ListsStack(AppStack):
+        def __init__(self, conf, base_events, later_worker):
+            AppStack.__init__(self, "sql", conf)
+            self.base_events = base_events
+            self.later_worker = later_worker
+
+        async def prepare(self, path):
+            from nostr_relay import web
+            from nostr_relay import dynamic_lists as dl
+            from nostr_relay.config import Config
+            from nostr_relay.storage import get_metadata
+            from nostr_relay.storage.db import DBStorage
+            dl.ALLOWED_PUBKEYS.clear()
+            dl.DENIED_PUBKEYS.clear()
+            o = dict(Config.storage, validators=["nostr_relay.validators.is_signed"])
+            st = DBStorage(o)
+            await st.setup()
+            async with st.db.begin() as conn:
+                await conn.run_sync(get_metadata().create_all)
+            for e in self.base_events:
+                await st.add_event(dict(e))
+            await st.close()
+            if self.later_worker:
+                web.is_main_process.set()
+            else:
+                web.is_main_process.clear()
+
+    async def one(conf, base, later, probes):
+        from nostr_relay import web
+        from nostr_relay import dynamic_lists as dl
+        from nostr_relay.util import Periodic
+        st = ListsStack(conf, base, later)
+        out = []
+        await st.start()
+        try:
+            for _ in range(600):                      # the builder's first run (run_at_start) is part of the start-up
+                await asyncio.sleep(0.005)
+                if dl.ALLOWED_PUBKEYS:
+                    break
+            await st.op(["open", 0, "1.1.1.1", None])
+            for e in probes:
+                r = await st.op(["event", 0, e])
+                oks = [f for _, fr in r["frames"] for f in fr if f[0] == "OK"]
+                g = await st.op(["get", e["id"]])
+                out.append({"ok": oks[0][2] if oks else None, "served": st.last_get[0] == 200})
+            await st.op(["drop", 0])
+        finally:
+            await st.stop()
+            Periodic.cancel_running()
+            web.is_main_process.clear()
+            dl.ALLOWED_PUBKEYS.clear()
+            dl.DENIED_PUBKEYS.clear()
+        return out
+    admin = 0
+    for later in (False, True):
+        for _ in range(1 if tier == "quick" else 4):
+            allowed = rng.sample([1, 2, 3], 2)
+            denied = rng.choice([None, allowed[0]])
+            base = [env.mk_event(admin, 3, env.NOW - 100, [["p", env.PUBS[i]] for i in allowed], "follows")]
+            if denied is not None:
+                base.append(env.mk_event(admin, 1984, env.NOW - 90, [["p", env.PUBS[denied]]], "report"))
+            conf = {"validators": ["nostr_relay.validators.is_signed", "nostr_relay.dynamic_lists.is_pubkey_allowed"],
+                    "dynamic_lists": {"check_interval": 7200, "allow_list_queries": [{"kinds": [3], "authors": [env.PUBS[admin]]}],
+                                      "deny_list_queries": [{"kinds": [1984], "authors": [env.PUBS[admin]]}]}}
+            probes = [env.mk_event(i, 1, env.NOW - 5, [], "probe %d %d" % (i, rng.randrange(10 ** 6))) for i in (1, 2, 3)]
+            got = env.run(one(conf, base, later, probes))
+            case = {"later_worker": later, "allowed": allowed, "denied": denied}
+            s.case(case, nontrivial=True)
+            want = [{"ok": (i in allowed and i != denied), "served": (i in allowed and i != denied)} for i in (1, 2, 3)]
+            if got != want:
+                s.violate("policy-not-applied-in-this-worker", case, "the dynamic allow / deny lists are not applied by a worker started as %s: "
+                          "acknowledgements / lookups %r, expected %r" % ("a later worker" if later else "the first worker", got, want), expected=want, observed=got)
+    return s
+
+
 def suite_app_auth(tier, seed, backends=("sql", "kv"), n=None):
     s = Suite("app:auth")
     s.rule = ("authentication enabled through the YAML configuration (relay_urls, actions save / query with random role sets): NIP-42 answers "
@@ -958,7 +1046,7 @@ def suite_app_auth(tier, seed, backends=("sql", "kv"), n=None):
 # which property checks run which application-level suites (the assembled application is one more path on
 # which the property has to hold; the scenarios differ per property through the seed label)
 APP_SUITES = {
-    "C03": ["store"], "C06": ["store"], "C08": ["store"], "C13": ["store"], "C16": ["store"], "C19": ["store", "auth"],
+    "C03": ["store"], "C06": ["store"], "C08": ["store"], "C13": ["store"], "C16": ["store", "lists"], "C19": ["store", "auth"],
     "C01": ["store"], "C14": ["auth"], "C15": ["auth"], "C18": ["limiter"], "C17": ["gc"], "C05": ["auth"], "C02": ["store"],
 }
 
@@ -974,6 +1062,8 @@ def suites_for(pid, tier, seed):
             out.append(suite_app_limiter(tier, seed))
         elif k == "gc":
             out.append(suite_app_gc(tier, seed))
+        elif k == "lists":
+            out.append(suite_app_lists(tier, seed))
     return out
 
 
